@@ -23,7 +23,7 @@ COMPONENTS = {
     "srv-handlers": (["internal/server (request handlers driven datagram by datagram; nonce manager chosen by the plan)"] + SRV_REAL,
                      SRV_STUB + ["turn.Server read loop (replaced by one long-lived handler loop over the simnet socket)"]),
     "+tcp": (["turn.Server TCP listener path, proto.STUNConn stream framing, RFC 6062 Connect/ConnectionBind/ConnectionAttempt, io.Copy relay pipes"], []),
-    "+realclient": (["turn.Client (client.go)", "internal/client (UDPConn, transactions, bindings, permissions, periodic timers)"],
+    "+realclient": (["turn.Client (client.go)", "internal/client (UDPConn, transactions, bindings, permissions, periodic timers; in the e2e-tcprelay plans TCPAllocation Dial/Accept/BindConnection and TCPConn)"],
                     ["scripted clients are replaced by the real client for this run"]),
     "+free": (["Go race detector over free-running goroutines (no driver steps)"], ["scheduler decisions (not controlled in this pass; results are race reports only)"]),
     "cli": (["turn.Client (client.go: Listen loop, PerformTransaction, handlers)", "internal/client (transaction map, UDPConn, TCPAllocation, bindings, permissions, timers)",
